@@ -349,6 +349,7 @@ func isErrNotNil(info *types.Info, cond ast.Expr) bool {
 
 func c13(r *core.Report) {
 	c13Close(r)
+	c13SecondPass(r)
 	p := r.Prog
 	pk := p.Pkg("openapi3filter")
 	info := pk.TypesInfo
@@ -1145,6 +1146,57 @@ func c13Probe(r *core.Report) {
 				}
 				return true
 			})
+		}
+	})
+}
+
+// c13SecondPass: the alternatives of oneOf / anyOf are tried on copies of the value, so that the
+// defaults of an alternative that does not match stay out; the defaults of the one that matches get
+// into the real value by visiting it once more. That second visit is the only way defaults below a
+// composition reach the forwarded request.
+func c13SecondPass(r *core.Report) {
+	p := r.Prog
+	info := p.Pkg("openapi3").TypesInfo
+	r.RunRule("C13.secondpass", "defaults of the matched alternative reach the real value: visitXOFOperations visits the matched oneOf alternative and the matched anyOf alternative once more with its own value parameter (result discarded), and those two visits depend on nothing but the direction flags and the match itself — no predicate over the matched schema (`declaresDefaults`-style shortcuts miss defaults that sit below a nested composition, which only this second visit reaches)", 2, func() {
+		fd := p.DeclOf("openapi3", "Schema.visitXOFOperations")
+		valueObj := core.ParamObj(info, fd, "value")
+		n := 0
+		ast.Inspect(fd.Body, func(nd ast.Node) bool {
+			as, ok := nd.(*ast.AssignStmt)
+			if !ok || len(as.Lhs) != 1 || len(as.Rhs) != 1 || core.ExprStr(as.Lhs[0]) != "_" {
+				return true
+			}
+			c, ok := ast.Unparen(as.Rhs[0]).(*ast.CallExpr)
+			if !ok || len(c.Args) != 2 {
+				return true
+			}
+			if f := core.CalleeOf(info, c); f == nil || f.Name() != "visitJSON" {
+				return true
+			}
+			if id, ok := ast.Unparen(c.Args[1]).(*ast.Ident); !ok || info.ObjectOf(id) != valueObj {
+				return true
+			}
+			n++
+			key := fmt.Sprintf("secondpass:visitXOFOperations#%d", n)
+			foreign := ""
+			for _, a := range core.Atoms(core.GuardsAt(info, fd.Body, as)) {
+				ast.Inspect(a.Expr, func(m ast.Node) bool {
+					if cc, ok := m.(*ast.CallExpr); ok {
+						if id, ok := ast.Unparen(cc.Fun).(*ast.Ident); ok && id.Name == "len" {
+							return true
+						}
+						if foreign == "" {
+							foreign = core.ExprStr(a.Expr)
+						}
+					}
+					return true
+				})
+			}
+			r.Check(foreign == "", key, p.Pos(as.Pos()), "the second visit depends on the direction and the match only", "the visit that writes the matched alternative's defaults into the real value is conditioned on `"+foreign+"`: when that is false for a schema whose defaults sit deeper (below a nested oneOf/anyOf, which validates copies), they never reach the forwarded request")
+			return true
+		})
+		if n < 2 {
+			r.Bad("secondpass:missing", p.Pos(fd.Pos()), fmt.Sprintf("visitXOFOperations visits the matched alternative with the real value %d time(s); the oneOf and the anyOf branch each need one, or the defaults of the matched alternative are lost with the copies", n))
 		}
 	})
 }
